@@ -63,4 +63,13 @@ example :
   decide +kernel
 example : IsRead 7 := by unfold IsRead; decide
 
+/-- a replica that answers its health probe is readmitted: the monitor clears its auto-ban flag whatever it was,
+    so `route` (which skips a flagged pool once its lift time has passed) picks it up again -/
+theorem C20_monitor_readmits (probe2 : Bool) : RcVerif.Route.monitorCycle true probe2 = false := by
+  simp [RcVerif.Route.monitorCycle]
+
+theorem C20_monitor_second_probe : RcVerif.Route.monitorCycle false true = false := rfl
+
+theorem C20_monitor_bans_dead : RcVerif.Route.monitorCycle false false = true := rfl
+
 end RcVerif.Props.C20
